@@ -132,7 +132,7 @@ def bounded(tier, seed):
             r = judge_scalar(t, ver)
             if r and len(fails) < 15:
                 fails.append({'id': 'C09/scalar', 'what': r + ' on %r' % t, 'input': {'kind': 'scalar', 'text': t, 'ver': ver}})
-    for t in ['2020-13-45', '25:00:00', 'hex("zz")', 'b64("@")', 'C(-,1)', '2020-01-01T00:00:00+99:99 UTC', '0001-01-01T00:00:00+00:00 Los_Angeles', '1e999', '@', 'X("\\ud800")',
+    for t in ['2020-01-01T00:00:00 UTC', '2020-01-01T00:00:00 New_York', '2020-01-01t00:00:00 Paris', '2020-01-01T00:00:00.5 UTC', '2020-13-45', '25:00:00', 'hex("zz")', 'b64("@")', 'C(-,1)', '2020-01-01T00:00:00+99:99 UTC', '0001-01-01T00:00:00+00:00 Los_Angeles', '1e999', '@', 'X("\\ud800")',
               '9999-12-31T23:59:59+00:00 Kiritimati', '<<ver:"x"\na\n>>', '{a a}', '[' * 50]:
         for ver in ('2.0', '3.0'):
             cases += 1
@@ -172,7 +172,7 @@ def replay(inp):
         return {'reproduced': isinstance(r, tuple) and r[0] == 'line0', 'detail': r[1] if isinstance(r, tuple) else str(r)}
     if k == 'raises':
         fails = []
-        for t in ['2020-13-45', 'hex("zz")', 'C(-,1)', '0001-01-01T00:00:00+00:00 Los_Angeles', '9999-12-31T23:59:59+00:00 Kiritimati', '{a a}', '[1,2]']:
+        for t in ['2020-01-01T00:00:00 UTC', '2020-01-01T00:00:00 New_York', '2020-13-45', 'hex("zz")', 'C(-,1)', '0001-01-01T00:00:00+00:00 Los_Angeles', '9999-12-31T23:59:59+00:00 Kiritimati', '{a a}', '[1,2]']:
             r = judge_scalar(t, '3.0')
             if r:
                 fails.append(r)
